@@ -64,6 +64,13 @@ def run(data):
                 b = units[j] ** f if f != 1 else units[j]
                 q = Quantity(mk_num(m), a)
                 if what == "in_unit": r = q.in_unit(b)
+                elif what == "in_unit_deep":
+                    # the same conversion asked from deep inside a recursive computation, with only a few dozen stack frames left
+                    import sys as _sys
+                    def descend(k):
+                        return q.in_unit(b) if k <= 0 else descend(k - 1)
+                    depth_now = len(__import__("inspect").stack(0))
+                    r = descend(_sys.getrecursionlimit() - depth_now - 60)
                 elif what == "rev": r = Quantity(mk_num(m), b).in_unit(a)
                 elif what == "eq": r = (q == Quantity(mk_num(m), b))
                 elif what == "lt": r = (q < Quantity(mk_num(m), b))
